@@ -1,6 +1,6 @@
 import AmcVerif.Props.C04e
 /-! C05 (SmallSet clause) — **a SmallSet whose `std::set` never holds more than N elements never leaves the inline state**: along
-any history of the generated `insert` / `erase(key)` / `clear` in which the specification set (`C04.runA`) has at most N elements
+any history of the generated `insert` / `erase(key)` / `clear` / `insert(first, last)` in which the specification set (`C04.runA`) has at most N elements
 before and after every step, every state reached has an EMPTY backing set — the backing set (the only part of a SmallSet that
 allocates) is never given an element.  Until the fourth session this clause was decided by a counting allocator on runs only. -/
 namespace AmcVerif.Props.C05
@@ -43,6 +43,33 @@ theorem eraseKey_stays_small (s : SSet α) (hs : s.isSmall = true) (k : α) : (s
   | some i => simp [SSet.isSmall]
   | none => simpa using hs
 
+theorem insert_length_le (hswo : SWO lt) (N : Nat) (s : SSet α) (h : s.Inv lt N) (v : α) :
+    s.elems.length ≤ (s.insert lt N v).1.elems.length := by
+  have hel := insert_elems hswo N s h v
+  cases hb : (s.insert lt N v).2.2.1 with
+  | true => have := (hel.1 hb).length_eq; simp only [List.length_cons] at this; omega
+  | false => rw [hel.2 hb]; exact Nat.le_refl _
+
+theorem insertRange_length_le (hswo : SWO lt) (N : Nat) : ∀ (vs : List α) (s : SSet α), s.Inv lt N →
+    s.elems.length ≤ (s.insertRange lt N vs).elems.length
+  | [], s, _ => by simp [SSet.insertRange]
+  | v :: vs, s, h => by
+    have h1 := insert_length_le hswo N s h v
+    have h2 := insertRange_length_le hswo N vs (s.insert lt N v).1 (insert_inv hswo N s h v)
+    have : s.insertRange lt N (v :: vs) = (s.insert lt N v).1.insertRange lt N vs := by simp [SSet.insertRange]
+    rw [this]; omega
+
+/-- range insertion whose result has at most N elements never leaves the inline state (sizes only grow along the range) -/
+theorem insertRange_stays_small (hswo : SWO lt) (N : Nat) : ∀ (vs : List α) (s : SSet α), s.Inv lt N → s.isSmall = true →
+    (s.insertRange lt N vs).elems.length ≤ N → (s.insertRange lt N vs).isSmall = true
+  | [], s, _, hs, _ => by simpa [SSet.insertRange] using hs
+  | v :: vs, s, h, hs, hlen => by
+    have e : s.insertRange lt N (v :: vs) = (s.insert lt N v).1.insertRange lt N vs := by simp [SSet.insertRange]
+    rw [e] at hlen ⊢
+    have h1 := insert_inv hswo N s h v
+    have hmono := insertRange_length_le hswo N vs (s.insert lt N v).1 h1
+    exact insertRange_stays_small hswo N vs _ h1 (insert_stays_small hswo N s h hs v (by omega)) hlen
+
 /-- the specification set has at most N elements before and after every step of the history -/
 def Within (lt : α → α → Bool) (N : Nat) : List α → List (SOp α) → Prop
   | a, [] => a.length ≤ N
@@ -80,6 +107,12 @@ theorem step_stays_small (hswo : SWO lt) (N : Nat) (s : SSet α) (h : s.Inv lt N
     have hs' : s' = ⟨[], []⟩ := hg.1.symm
     subst hs'
     simp [SSet.isSmall]
+  | insR vs =>
+    obtain ⟨⟨r, hr1, he, _⟩, _⟩ := C04_gen_history hswo N s h vs
+    simp only [stepG, hr1, Option.map_some, Option.some.injEq, Prod.mk.injEq] at hg
+    have hs' : s' = s.insertRange lt N vs := by rw [← hg.1, he]
+    subst hs'
+    exact insertRange_stays_small hswo N vs s h hs hlen
 
 /-- **C05, SmallSet**: for every N, every inline state that satisfies the invariant and every history along which the
     `std::set` stays within N elements, the backing set stays empty throughout -/
